@@ -246,16 +246,15 @@ func (a Box2) MinMaxDist2(p v2.Vec) Interval {
 
 //-----------------------------------------------------------------------------
 
-// tAppend appends a t-value to the slice if it is unique and in range.
+// tAppend appends a t-value to the slice if it is in range.
+// Duplicates are removed later, by the position of the points: on a long
+// segment two t-values closer than any fixed tolerance can still be points
+// that are far apart (an end point just beyond a box edge and the crossing
+// of that edge).
 func tAppend(set []float64, t float64) []float64 {
 	if t < 0 || t > 1 {
 		// out of range
 		return set
-	}
-	for i := range set {
-		if EqualFloat64(set[i], t, tolerance) {
-			return set
-		}
 	}
 	return append(set, t)
 }
@@ -301,8 +300,14 @@ func (a *Box2) lineIntersect(l *Line2) *Line2 {
 	// scale it with the magnitude of the box coordinates.
 	tol := math.Max(tolerance, 1e-14*math.Max(a.Min.Abs().MaxComponent(), a.Max.Abs().MaxComponent()))
 
-	// filter the t-values
-	var pSet []v2.Vec
+	// The intersection of a segment and a box is a segment: take the in-box
+	// points with the smallest and the largest t-value. (Counting distinct
+	// points instead fails when an end point and the crossing of a box edge
+	// are about the tolerance apart: they are neither merged nor a third
+	// solution.)
+	n := 0
+	var t0, t1 float64
+	var p0, p1 v2.Vec
 	for _, t := range tSet {
 		p := u.Add(v.MulScalar(t))
 		p = a.Snap(p, tol)
@@ -310,30 +315,22 @@ func (a *Box2) lineIntersect(l *Line2) *Line2 {
 		if !a.Contains(p) {
 			continue
 		}
-		// The t-values are compared with a tolerance in parameter space. For a
-		// short segment two of them can differ by more than that and still give
-		// the same (snapped) point: compare the points as well.
-		dup := false
-		for _, q := range pSet {
-			if q.Equals(p, tol) {
-				dup = true
-			}
+		if n == 0 || t < t0 {
+			t0, p0 = t, p
 		}
-		if !dup {
-			pSet = append(pSet, p)
+		if n == 0 || t > t1 {
+			t1, p1 = t, p
 		}
+		n++
 	}
 
-	if len(pSet) != 2 {
+	// no solutions, or the line only touches the box
+	if n == 0 || p0.Equals(p1, tol) {
 		return nil
 	}
 
-	// make sure it's aligned with the original line
-	vx := pSet[1].Sub(pSet[0])
-	if v.Dot(vx) > 0 {
-		return &Line2{pSet[0], pSet[1]}
-	}
-	return &Line2{pSet[1], pSet[0]}
+	// t0 < t1: aligned with the original line
+	return &Line2{p0, p1}
 }
 
 // lineFilter returns the intersection of a box and a set of line segments.
